@@ -3,6 +3,7 @@
 -/
 import Gmars.Model.Listing
 import Gmars.Spec.LoadText
+import Gmars.Proofs.RoundTrip
 
 namespace Gmars.Props.C16
 open Gmars
@@ -31,6 +32,18 @@ theorem addressSigned_range (m a : UInt64) (ha : a < m) :
   · rename_i hgt
     simp only [GT.gt, UInt64.lt_iff_toNat_lt, UInt64.toNat_div, h2, Nat.not_lt] at hgt
     omega
+
+/-- `listing_roundtrip` — THE theorem of C16. For every core size, every warrior with an entry
+    point inside its code (every instruction form; in the '88 dialect every legal '88 instruction),
+    the text `LoadCode()` prints — ORG START / END START, the START label, the Sprintf columns,
+    signed fields — read back with the pMARS listing conventions (`Spec.readText`) denotes exactly
+    the warrior's instructions and entry point, fields compared modulo the core size. -/
+theorem listing_roundtrip (m : UInt64) (legacy : Bool) (w : WarriorData)
+    (hs : 0 ≤ w.start) (hlt : w.start < w.code.size)
+    (hl : legacy = true → ∀ i ∈ w.code.toList, Spec.Legal88 i = true) :
+    ∃ t, Spec.readText (loadCode m legacy w) = some t ∧
+      Spec.denotes m.toNat t w.code.toList w.start = true :=
+  RoundTrip.listing_roundtrip_gen m legacy w hs hlt hl
 
 -- boundary cases of the sign threshold
 example : addressSigned 8000 4000 = 4000 ∧ addressSigned 8000 4001 = -3999 ∧ addressSigned 8000 7999 = -1 := by decide
